@@ -122,7 +122,8 @@ def model_expr(case: Dict[str, Any], res: P.CaseResult, events: List[Tuple[int, 
     kinds = " ".join(f"| {i}%nat => {kind_of(op)[0]}" for i, op in enumerate(case["ops"]))
     maxrs = " ".join(f"| {i}%nat => {kind_of(op)[1]}%nat" for i, op in enumerate(case["ops"]))
     lu0 = res.initial["meta"]["last_updated_ms"]
-    cfgs = "{| cas := false; lockkind := %s |}" % ("GrantAll" if case.get("lock") == "grant_all" else "Excl")
+    cfgs = "{| cas := %s; lockkind := %s |}" % ("true" if case.get("backend") == "s3cas" else "false",
+                                               "GrantAll" if case.get("lock") == "grant_all" else "Excl")
     evs = "[" + "; ".join(f"{{| e_actor := {ai}%nat; e_kind := {_nat_args(k)} |}}" for ai, k in events) + "]"
     return (f"match run_strict {cfgs} (init_world {{| m_ops := []; m_cur := 1; m_lu := {lu0} |}} "
             f"(fun a => match a with {kinds} | _ => KKeep end) (fun a => match a with {maxrs} | _ => 1%nat end)) {evs} 0%nat with "
@@ -234,7 +235,7 @@ def check_runs(ctx, name: str, runs: List[Tuple[Dict[str, Any], Any, P.CaseResul
             ctx.violation(f"not-serializable:{case.get('clock', 'tick')}:{'+'.join(o['kind'] + ('-' + o['which'] if 'which' in o else '') for o in case['ops'])}",
                           why, {"case": _case_json(case), "deviations": list(dev), "schedule": res.schedule, "outcomes": res.outcomes})
         try:
-            events, vids, _notes = P.project(res, len(case["ops"]))
+            events, vids, _notes = P.project(res, len(case["ops"]), cas=(case.get("backend") == "s3cas"))
         except P.Nonconforming as e:
             bad.append({"case": _case_json(case), "schedule": res.schedule, "nonconforming": str(e)})
             continue
